@@ -112,6 +112,7 @@ func TestVerifC28ConfdHistory(t *testing.T) {
 			bgp := c28Setting{Kind: "no-object"}
 			pools := map[string]c28Pool{}
 			history := ""
+			deletedOnce := false
 			newPool := func() (c28Pool, bool) {
 				mode := rapid.SampledFrom(append([]string{"none"}, c28Modes...)).Draw(t, "mode")
 				v6 := !strings.HasPrefix(mode, "ipip") && rapid.IntRange(0, 3).Draw(t, "v6") == 0
@@ -146,7 +147,7 @@ func TestVerifC28ConfdHistory(t *testing.T) {
 				case "bgp-set":
 					prev := bgp
 					bgp = c28Setting{"value", rapid.SampledFrom(append(append([]string{}, c28Values...), c28Junk[0])).Draw(t, "bgpValue")}
-					if prev.Kind == "no-object" && step > 1 {
+					if prev.Kind == "no-object" && deletedOnce {
 						classes["bgpconfig-recreated"] = true
 					}
 					batch = append(batch, c28BGPUpdate(bgp))
@@ -161,6 +162,9 @@ func TestVerifC28ConfdHistory(t *testing.T) {
 					if c28Effective(bgp, c28BGPDefault) != c28BGPDefault {
 						nontrivial = true
 						classes["bgpconfig-deleted-after-non-default"] = true
+					}
+					if bgp.Kind != "no-object" {
+						deletedOnce = true
 					}
 					bgp = c28Setting{Kind: "no-object"}
 					batch = append(batch, c28BGPUpdate(bgp))
